@@ -79,7 +79,15 @@ def build(shape, rng, variant, m0_variant):
         k = rng.choice(idx)
         others = sum(s[1] for j, s in enumerate(specs) if s and s[0] == "pct" and j != k)
         specs[k] = ("pct", round(min(100.0, 100.0 - others + rng.choice([0.5, 5.0, 20.0])), 3))
+    elif variant == "negative":
+        idx = [k for k, s in enumerate(specs) if s]
+        if not idx:
+            return None
+        k = rng.choice(idx)
+        specs[k] = (specs[k][0], -abs(specs[k][1]))
     M0 = None
+    if m0_variant == "negative":
+        M0 = -M
     if m0_variant == "consistent":
         M0 = M
     elif m0_variant == "inconsistent":
@@ -109,8 +117,8 @@ def run_case(case):
             continue
         cnt["shapes_enumerated"] += 1
         for rep in range(case["reps"]):
-            variant = ["consistent", "consistent", "inconsistent", "over100"][rep % 4]
-            m0v = [None, "consistent", None, "inconsistent", "consistent"][(rep // 4) % 5]  # independent of the variant: all 20 combinations
+            variant = ["consistent", "consistent", "inconsistent", "over100", "negative"][rep % 5]
+            m0v = [None, "consistent", None, "inconsistent", "consistent", "negative"][(rep // 5) % 6]  # independent of the variant: all 30 combinations
             b = build(shape, rng, variant, m0v)
             if b is None:
                 continue
@@ -155,6 +163,21 @@ def run_case(case):
                     viol.append({"cls": "c12.underdetermined-raises", "msg": f"{label} is under-determined ({data}); it must report not generable but raised {type(exc).__name__}: {exc}", "text": label})
                 elif S.generable:
                     viol.append({"cls": "c12.underdetermined-generable", "msg": f"{label} is under-determined ({data}) but reports generable", "text": label})
+                else:
+                    # printing then re-parsing keeps what was written (and invents nothing)
+                    try:
+                        c = str(S)
+                        S2 = gbigsmiles.System(c, M0) if M0 is not None else gbigsmiles.System(c)
+                        cnt["under_reparsed"] += 1
+                        if S2.generable:
+                            viol.append({"cls": "c12.reparse-underdetermined-became-generable", "msg": f"{label} prints {c!r}, which is generable", "text": label})
+                        for i, (m2, sp) in enumerate(zip(molecules_of(S2), specs)):
+                            got = None if m2.mixture is None else (m2.mixture.absolute_mass if (sp and sp[0] == "abs") else m2.mixture.relative_mass)
+                            if sp is not None and (got is None or abs(got - sp[1]) > 1e-12 * max(abs(sp[1]), 1e-300)):
+                                viol.append({"cls": "c12.reparse.written-value-changed", "msg": f"{label} prints {c!r}: component {i} was written {sp}, re-parsed value {got!r}", "text": label})
+                                break
+                    except Exception as e:
+                        viol.append({"cls": "c12.reparse-raises", "msg": f"{label}: printing/re-parsing raised {type(e).__name__}: {e}", "text": label})
                 continue
             # determined
             cnt["determined_checked"] += 1
